@@ -363,11 +363,14 @@ def main():
                 inconclusive.append("harness %s started but has no result" % hid)
             known = load_known()
             for hid, h in sorted(digest.items()):
+                expected_unsat = {c["description"] for c in h["covers"] if c["description"].startswith("MUST-BE-UNREACHABLE")}
+                sat_forbidden = [c for c in h["covers"] if c["description"] in expected_unsat and c["status"] == "Satisfied"]
+                if h["status"] != "Success" and sat_forbidden and not h["failed"]:
+                    # should_panic harness that did not panic: the statement after the call is reachable
+                    h["failed"] = sat_forbidden
                 if h["status"] == "Success":
                     # vacuity: every cover witness of a passing harness must be satisfied
-                    expected_unsat = {c["description"] for c in h["covers"] if c["description"].startswith("MUST-BE-UNREACHABLE")}
                     bad = [c for c in h["unsat_covers"] if c["description"] not in expected_unsat]
-                    sat_forbidden = [c for c in h["covers"] if c["description"] in expected_unsat and c["status"] == "Satisfied"]
                     if bad:
                         inconclusive.append(
                             "%s: witness not satisfiable: %s" % (short(hid), "; ".join(c["description"] for c in bad))
